@@ -1491,6 +1491,9 @@ class _DynamicallyDefineDataIdentifierResponse(
         dynamically_defined_data_identifier: int | None = None
 
         if len(pdu) > 2:
+            if len(pdu) != 4:
+                raise ValueError("The dynamicallyDefinedDataIdentifier must be 2 bytes long")
+
             dynamically_defined_data_identifier = from_bytes(pdu[2:])
 
         return cls(dynamically_defined_data_identifier)
